@@ -361,4 +361,64 @@ def NoRelink (m : W) : List Step → Prop
 /-- Everything pushed into the writer's pump, in order. -/
 def emitted (outs : List Out) : List Resp := outs.flatMap (·.emits)
 
+/-! ### The window inside `Write`
+
+`Write` first decides that it is a request at all (`w.done`, `len(w.readers) == 0`, `w.accepting()`),
+then shows the packet to the writer's outbound hooks, and only then asks every linked reader in
+turn (`r.write`).  `Reader.Close` does not take the writer's lock, so a reader can close between the
+two looks `Write` takes at it – deterministically when an outbound hook closes it.  `writeH v cs` is a
+`Write` whose outbound hook closes the readers `cs` (`cs = []`: a hook that does nothing); each close
+is the ordinary `closeR` critical section, the rest of `Write` is the ordinary `write` step run on
+the state the hook left.  `shown` counts the calls of the outbound hook in the step, `spawned` the
+drop goroutines the hook's closes started. -/
+
+inductive XStep where
+  | base (s : Step)
+  | writeH (v : Nat) (cs : List RId)
+  deriving DecidableEq, Repr
+
+structure XOut where
+  out : Out
+  shown : Nat := 0
+  spawned : Nat := 0
+  deriving DecidableEq, Repr
+
+/-- The count a step returned (`closeR`: the goroutines it spawned). -/
+def Ret.count : Ret → Nat
+  | .cnt n => n
+  | _ => 0
+
+/-- How often a base step calls the writer's outbound hook: a `write` that is a request, once. -/
+def shownOf (isReq : Bool) : Step → Nat
+  | .write _ => if isReq then 1 else 0
+  | _ => 0
+
+/-- `Write` gets as far as its outbound hooks: not closed, a reader linked, a reader accepting. -/
+def isRequest (m : W) : Bool := !m.done && !m.readers.isEmpty && !(accepting m.closed m.readers).isEmpty
+
+/-- The hook closes the readers one after the other: `(state, goroutines spawned)`. -/
+def closeAll (m : W) : List RId → W × Nat
+  | [] => (m, 0)
+  | r :: rs =>
+    let p := step m (.closeR r)
+    let q := closeAll p.1 rs
+    (q.1, p.2.ret.count + q.2)
+
+def xstep (m : W) : XStep → W × XOut
+  | .base s =>
+    let p := step m s
+    (p.1, { out := p.2, shown := shownOf (isRequest m) s })
+  | .writeH v cs =>
+    if isRequest m then
+      let c := closeAll m cs
+      let p := step c.1 (.write v)
+      (p.1, { out := p.2, shown := 1, spawned := c.2 })
+    else (m, { out := { ret := .cnt 0 } })
+
+def xrunFrom (m : W) : List XStep → W × List XOut
+  | [] => (m, [])
+  | s :: h => ((xrunFrom (xstep m s).1 h).1, (xstep m s).2 :: (xrunFrom (xstep m s).1 h).2)
+
+def xrun (h : List XStep) : W × List XOut := xrunFrom W.init h
+
 end Uniflow.Writer
